@@ -53,4 +53,17 @@ func init() {
 			emit(s)
 		})
 	})
+
+	// ---- redefprov (C08/C09): the redef scenarios that use a zero-argument converter
+	// publishing a *named* value.
+	reg("redefprov", "the redef tier (same size parameter) extended by a zero-argument converter publishing the named value a:T0; only the scenarios that use it", func(size int, emit func(Scenario)) {
+		Tiers["redef"].Gen(size+10, func(s Scenario) {
+			for _, c := range s.Convs {
+				if len(c.In) == 0 && len(c.Out) == 1 && c.Out[0].Name == "a" {
+					emit(s)
+					return
+				}
+			}
+		})
+	})
 }
